@@ -34,7 +34,7 @@ func init() {
 		Rule: "one run = an SDP without sprop parameter sets (H.264+AAC or H.265), RTP single-NAL packets: optional leading slices (undecodable, before any parameter set), then [VPS] SPS PPS (tape-chosen order, optionally repeated before later key frames) and 2-4 GOPs; 1-2 FLV viewers joining at tape-chosen packets; " +
 			"every viewer that gets a media tag got metadata, then a decoder configuration holding exactly the in-band parameter sets, before it; media tags carry the sent units in order. distinct = decision-sequence hash; non-trivial = at least one pre-emption",
 		Assumptions:    []string{"parameter sets are the valid ones of the H.264/H.265 fixtures (a stream whose in-band sets do not parse never becomes ready: not judged)", "slices sent before the stream's parameter sets are known may be dropped"},
-		RequiredProbes: []string{"c08ib.h264", "c08ib.h265", "c08ib.config-checked", "c08ib.join-after-start"},
+		RequiredProbes: []string{"c08ib.h264", "c08ib.h265", "c08ib.config-checked", "c08ib.join-after-start", "c08ib.audio-before-parameter-sets"},
 	})
 }
 
@@ -93,6 +93,12 @@ func buildC08Inband(tier string) sim.Scenario {
 		keyT, pT := 5, 1
 		if cdc == oracle.H265 {
 			keyT, pT = 19, 1
+		}
+		if cdc == oracle.H264 && tp.OneIn(3) { // an audio frame is the very first thing the converters see
+			au := blob(70000, 40)
+			pk = append(pk, sent{p: mkRTP(rtp.ChannelAudio, 97, aseq, uint32(aseq)*1024, true, aacPayload(au)), au: au})
+			aseq++
+			w.Probe("c08ib.audio-before-parameter-sets")
 		}
 		early := tp.Choose(3) // slices before any parameter set
 		for i := 0; i < early; i++ {
